@@ -306,6 +306,10 @@ def run_chunk(job):
             args += ['--cases', cp]
         rc, so, se = run_worker(binary, args)
         recs, stats, crash = parse_output(so, se, prop, rc)
+        for r in recs:
+            r['proc_from'] = cur
+        if crash:
+            crash['proc_from'] = cur
         out['records'] += recs
         if stats:
             out['stats'].append(stats)
@@ -355,6 +359,67 @@ def get_plan(binary, prop, seed, run, thorough, failk=0):
     env = int(re.search(r'env=(\d+)', lines[0]).group(1))
     env2 = int(re.search(r'env2=(\d+)', lines[0]).group(1))
     return [l for l in lines[1:] if l.strip()], env, env2
+
+
+def run_history(binary, prop, seed, frm, rec, thorough, avoid, known):
+    """Runs frm..rec['run'] in ONE fresh process (as the exploring worker did) and returns the record of the last run."""
+    run = rec['run']
+    args = ['run', '--prop', prop, '--seed', str(seed), '--from', str(frm), '--count', str(run - frm + 1)]
+    if thorough:
+        args.append('--thorough')
+    if avoid:
+        args += ['--avoid', ','.join(avoid)]
+    if known:
+        args += ['--known', ','.join(known)]
+    rc, so, se = run_worker(binary, args)
+    recs, _, crash = parse_output(so, se, prop, rc)
+    if crash is not None and crash.get('run') == run:
+        return crash
+    same = [r for r in recs if r['run'] == run and str(r.get('failk', '')) == str(rec.get('failk', ''))]
+    if same:
+        return same[-1]
+    return {'status': 'ok', 'class': None, 'op': None}
+
+
+def history_gate(prop, cfg, flavour, binary, seed, rec, thorough, avoid, known, tier, sig):
+    """A violation that a fresh process does not show for the run alone may depend on what the same process did before
+    (state the library keeps outside its objects). Re-run the worker's own history; if that reproduces, shrink the
+    history to the shortest suffix that still does."""
+    first = int(rec.get('proc_from', rec['run']))
+    run = rec['run']
+    if first >= run:
+        return None, None
+
+    def reproduces(frm):
+        r = run_history(binary, prop, seed, frm, rec, thorough, avoid, known)
+        return r if (r.get('status') == 'viol' and signature(r) == sig) else None
+
+    if not reproduces(first) or not reproduces(first):
+        return None, None
+    best = first
+    step = 1
+    while run - step > first:
+        if reproduces(run - step):
+            best = run - step
+            break
+        step *= 2
+    final = reproduces(best)
+    if not final:
+        best, final = first, reproduces(first)
+        if not final:
+            return None, None
+    rdir = os.environ.get('VERIF_REPLAY_DIR', os.path.join(ROOT, 'replays'))
+    os.makedirs(rdir, exist_ok=True)
+    path = os.path.join(rdir, '%s-%s-%s-%d-%d-history.json' % (prop, cfg['name'], flavour, seed, run))
+    doc = {'kind': 'history', 'property': prop, 'config': cfg, 'flavour': flavour, 'tier': tier, 'seed': seed,
+           'from': best, 'run': run, 'failk': rec.get('failk'), 'thorough': thorough, 'avoid': avoid, 'known': known,
+           'note': 'the run alone does not violate the property in a fresh process; runs %d..%d executed in one process do: '
+                   'the library carries state from earlier vectors to later ones (e.g. a function-local static)' % (best, run),
+           'expect': {'signature': sig, 'class': final.get('class'), 'op': final.get('op'), 'key': final.get('key'),
+                      'props': final.get('props')}}
+    with open(path, 'w') as fh:
+        json.dump(doc, fh, indent=1)
+    return path, 'needs runs %d..%d in one process' % (best, run)
 
 
 def differential(prop):
@@ -457,6 +522,9 @@ def gate(prop, cfg, flavour, binary, seed, rec, thorough, avoid, known, tier):
             varies = signature(r1) != signature(r2)
             sig = signature(r1)
         else:
+            hp, hnote = history_gate(prop, cfg, flavour, binary, seed, rec, thorough, avoid, known, tier, sig)
+            if hp:
+                return hp, hnote
             return None, 'NOT-REPRODUCED expected %s got %s / %s' % (sig, signature(r1), signature(r2))
     # C17: the violation must depend on an injected failure
     if prop == 'C17':
@@ -497,6 +565,17 @@ def replay_file(path, quiet=False):
     if binary is None:
         log('cannot build %s: %s' % (doc['config']['name'], diag))
         return 2, {}
+    if doc.get('kind') == 'history':
+        rec = {'run': doc['run'], 'failk': doc.get('failk')}
+        r = run_history(binary, prop, doc['seed'], doc['from'], rec, doc.get('thorough', False), doc.get('avoid', []), doc.get('known', []))
+        if r.get('status') == 'viol' and signature(r) == doc['expect']['signature']:
+            if not quiet:
+                log('VIOLATION property=%s replay=%s' % (prop, path))
+                log('  %s op=%s %s (runs %d..%d in one process)' % (r.get('class'), r.get('op'), r.get('key'), doc['from'], doc['run']))
+            return 1, r
+        if not quiet:
+            log('replay does not violate on this tree: %s' % signature(r))
+        return 0, r
     r = exec_plan(binary, prop, doc['plan'], doc['env'], doc.get('env2', 0), doc.get('avoid', []), doc.get('known', []))
     if r.get('status') == 'viol' and (signature(r) == doc['expect']['signature'] or doc.get('manifestation_varies')):
         if not quiet:
@@ -606,7 +685,8 @@ def check(prop, tier):
         if path is None:
             harness_errors.append('%s %s run=%s: %s' % (c['name'], f, rec.get('run'), note))
             continue
-        violations.append((path, '%s op=%s %s [%s %s run=%d]' % (rec.get('class'), rec.get('op'), rec.get('key'), c['name'], f, rec['run'])))
+        violations.append((path, '%s op=%s %s [%s %s run=%d]%s' % (rec.get('class'), rec.get('op'), rec.get('key'), c['name'], f, rec['run'],
+                                                                   '' if note == 'ok' else ' (' + note + ')')))
     # known findings of this property: replay each committed replay file
     kf_lines = []
     for k in known_all:
@@ -724,7 +804,7 @@ def write_evidence(prop, tier, seed, wall, t_build, agg, distinct, cfgs, pairs, 
            'assumptions': ['documented preconditions are enforced by the interpreter (size()<capacity(), payload within the reserved bytes, '
                            'equal field sizes for reference assignment, count field equals the span length)',
                            'sampling, not enumeration: a clean batch is evidence, not proof',
-                           'value types and source iterators never throw'],
+                           'value types throw only in C19 (F10: copies of shared objects); source iterators never throw'],
            'wall_s': round(wall, 2), 'violations': len(violations)}
     edir = os.environ.get('VERIF_EVIDENCE_DIR', os.path.join(ROOT, 'evidence'))
     os.makedirs(edir, exist_ok=True)
